@@ -567,6 +567,8 @@ class Evaluator:
                 return module.name
             if name == "__file__":
                 return str(module.path)
+            if self._run_dynamic(module) and key in self.mod_cache:
+                return self.mod_cache[key]
             v = self.builtin(name)
             return v
         if sym.kind == "func":
@@ -596,6 +598,23 @@ class Evaluator:
             raise Undecided(f"symbol kind {sym.kind}")
         self.mod_cache[key] = v
         return v
+
+    def _run_dynamic(self, module):
+        """Execute (once per evaluator) the module-level statements that can bind names dynamically; -> True if there were any."""
+        stmts = getattr(module, "dynamic_stmts", None)
+        if not stmts:
+            return False
+        done = self.__dict__.setdefault("_dynamic_done", set())
+        if module.name in done:
+            return True
+        done.add(module.name)
+        env = Env(self, module)
+        env.vars = _ModuleVars(self, module)
+        for st in stmts:
+            if isinstance(st, ast.If) and "__main__" in ast.unparse(st.test):
+                continue
+            self.exec_stmt(st, env)
+        return True
 
     def import_module(self, dotted, soft=False):
         if dotted in self.proj.modules:
@@ -636,6 +655,10 @@ class Evaluator:
                 return m.name
             if attr == "__getattribute__":
                 return _NativeFn(lambda name: self.getattr(obj, name, node))
+            if self._run_dynamic(m) and (m.name, attr) in self.mod_cache:
+                return self.mod_cache[(m.name, attr)]
+            if attr == "__dict__":
+                return _ModuleVars(self, m)
             raise Raised("AttributeError", f"module {m.name} has no attribute {attr}", node)
         if isinstance(obj, ExtVal):
             return self.ext_attr(obj, attr)
@@ -658,7 +681,13 @@ class Evaluator:
                     return FuncVal(self, v, bound=obj, defcls=c)
                 return FuncVal(self, v, defcls=c)
             if v is not None:
-                return self.class_attr_value(c, attr, v)
+                cav = self.class_attr_value(c, attr, v)
+                if isinstance(cav, _DescriptorWrap):
+                    if cav.kind == "static":
+                        return cav.f
+                    if cav.kind == "class" and isinstance(cav.f, FuncVal):
+                        return FuncVal(self, cav.f.finfo, closure=cav.f.closure, bound=obj, defcls=c)
+                return cav
             if attr == "__name__":
                 return obj.cinfo.name
             raise Raised("AttributeError", f"class {obj.cinfo.name} has no attribute {attr}", node)
@@ -814,8 +843,14 @@ class Evaluator:
                 return self.class_stores[(c.fq, attr)]
             if attr in c.attrs:
                 v = self.class_attr_value(c, attr, c.attrs[attr])
-                if isinstance(v, FuncVal) and isinstance(v.finfo.node, ast.Lambda) and v.bound is None:
-                    # plain function stored on the class: binds like a method
+                if isinstance(v, _DescriptorWrap):
+                    if v.kind == "static":
+                        return v.f
+                    if v.kind == "class":
+                        return FuncVal(self, v.f.finfo, closure=v.f.closure, bound=ClassVal(self, cinfo), defcls=c) if isinstance(v.f, FuncVal) else v.f
+                    return self.call(v.f, [obj], {})  # property(fget)
+                if isinstance(v, FuncVal) and v.bound is None and isinstance(obj, ObjVal):
+                    # a plain function stored on the class (lambda, def or a function taken from another module): binds like a method
                     return FuncVal(self, v.finfo, closure=v.closure, bound=obj, defcls=c)
                 return v
         if attr in ("__init__",):
@@ -1169,6 +1204,7 @@ class Evaluator:
             return h(self, *args, **kwargs)
         top = d.split(".")[0]
         if top in ("LeProHQ", "adani"):
+            self.__dict__.setdefault("opaque_ext_log", []).append((d, tuple(args), node))  # rules audit the literal arguments (C16.ext)
             return A.opaque(d, tuple(args))
         if top in ("logging", "rich", "time", "warnings"):
             return OpaqueObj(d + "()")
@@ -1557,7 +1593,12 @@ class Evaluator:
     def truth(self, v, node=None):
         v = num_norm(v)
         if isinstance(v, Rat):
-            raise Undecided(f"symbolic condition: {ast.unparse(node) if node is not None else v}")
+            # truth of a number is `v != 0`: the comparison machinery decides it (assumption hooks of the rule first, then a
+            # definite sign, then the generic-point fold of `non-constant polynomial != constant`)
+            try:
+                return self.compare(ast.NotEq(), v, 0, node)
+            except Undecided:
+                raise Undecided(f"symbolic condition: {ast.unparse(node) if node is not None else v}")
         if isinstance(v, (ObjVal, FuncVal, ClassVal, ModVal, ExtVal)):
             if isinstance(v, ObjVal) and v.cinfo is not None and any(
                 b in ("dict", "list") for b in v.cinfo.mro() if not isinstance(b, ClassInfo)
@@ -1934,6 +1975,8 @@ class Evaluator:
         # super()
         if isinstance(n.func, ast.Name) and n.func.id == "super" and not n.args:
             return SuperVal(env_self(env), env_defcls(env))
+        if isinstance(n.func, ast.Name) and n.func.id == "globals" and not n.args and not n.keywords:
+            return _ModuleVars(self, env.module)
         f = self.eval(n.func, env)
         args = self._elts(n.args, env)
         kwargs = {}
@@ -2111,7 +2154,28 @@ class _ModuleVars(dict):
         return v is not _PENDING
 
     def __getitem__(self, k):
-        return self.ev.mod_cache[(self.module.name, k)]
+        if (self.module.name, k) in self.ev.mod_cache and self.ev.mod_cache[(self.module.name, k)] is not _PENDING:
+            return self.ev.mod_cache[(self.module.name, k)]
+        if k in self.module.symbols:
+            return self.ev.module_global(self.module, k)
+        raise KeyError(k)
+
+    def get(self, k, default=None):
+        try:
+            return self[k]
+        except KeyError:
+            return default
+
+    def setdefault(self, k, default=None):
+        try:
+            return self[k]
+        except KeyError:
+            self[k] = default
+            return default
+
+    def update(self, other=(), **kw):
+        for k, v in dict(other, **kw).items():
+            self[k] = v
 
 
 _ACTIVE = [None]
@@ -2265,6 +2329,13 @@ class WatchedWrite(Exception):
 
 def _shallow(c):
     return dict(c) if isinstance(c, dict) else list(c)
+
+
+class _DescriptorWrap:
+    """staticmethod(f) / classmethod(f) / property(f) used as calls (class attributes assigned in the class body)."""
+
+    def __init__(self, kind, f):
+        self.kind, self.f = kind, f
 
 
 class _NativeFn:
@@ -2715,7 +2786,7 @@ _BUILTINS = {
     "slice": slice,
     "bytes": bytes,
     "repr": repr,
-    "type": lambda o: _b_type(o),
+    "type": lambda o, *rest: _b_type(o) if not rest else _make_class(o, *rest),
     "object": None,  # replaced below by _ObjectType()
     "ValueError": ValueError,
     "KeyError": KeyError,
@@ -2780,6 +2851,43 @@ def _b_isinstance2(v, t):
 
 
 _BUILTINS["isinstance"] = _b_isinstance2
+_BUILTINS["staticmethod"] = lambda f: _DescriptorWrap("static", f)
+_BUILTINS["classmethod"] = lambda f: _DescriptorWrap("class", f)
+_BUILTINS["property"] = lambda fget=None, *a, **k: _DescriptorWrap("property", fget)
+
+
+def _make_class(name, bases, namespace=None):
+    """type(name, bases, dict): a new class whose body is the given namespace."""
+    from .model import ClassInfo
+
+    ev = _ACTIVE[0] or _DUMMY
+    if not isinstance(name, str):
+        raise Undecided("type() with a non-literal class name")
+    node = ast.parse(f"class {name}:\n    pass").body[0]
+    owner = None
+    infos = []
+    for b in bases:
+        if isinstance(b, ClassVal):
+            infos.append(b.cinfo)
+            owner = owner or b.cinfo.module
+        elif isinstance(b, _TypeProxy):
+            infos.append(b.pytype.__name__)
+        elif isinstance(b, _ObjectType):
+            continue
+        else:
+            raise Undecided("type() with a base that is not a class of the project")
+    if owner is None:
+        raise Undecided("type() without a project base class")
+    ci = ClassInfo(owner, node)
+    ci.bases = infos
+    ci._mro = None
+    cv = ClassVal(ev, ci)
+    for k, v in dict(namespace or {}).items():
+        if isinstance(v, FuncVal):
+            ci.methods[k] = v.finfo
+        else:
+            ev.class_stores[(ci.fq, k)] = v
+    return cv
 
 
 def _b_type(o):
@@ -2867,11 +2975,22 @@ def _np_array(ev, data, dtype=None, **kw):
 
 def _np_elementwise(fn):
     def f(ev, x, *rest, **kw):
+        out = kw.get("out")
+        if out is not None and not isinstance(out, Arr):
+            raise Undecided("ufunc with out= something that is not an array")
         if isinstance(x, Arr):
-            return x._map(lambda y: fn(y, *rest))
-        if isinstance(x, (list, tuple)):
-            return Arr(list(x))._map(lambda y: fn(y, *rest))
-        return fn(x, *rest)
+            r = x._map(lambda y: fn(y, *rest))
+        elif isinstance(x, (list, tuple)):
+            r = Arr(list(x))._map(lambda y: fn(y, *rest))
+        else:
+            r = fn(x, *rest)
+        if out is not None:
+            # the result is written into the memory of `out` (every view of it sees the new values) and `out` is returned
+            if not isinstance(r, Arr) or r.shape != out.shape:
+                raise Undecided("ufunc out= with a broadcast result")
+            out.overwrite(r.data)
+            return out
+        return r
 
     return f
 
